@@ -103,6 +103,13 @@ impl Mon {
             }
         }
     }
+    /// what a script may do at a pause: remove the n-th element this sink created from its parent
+    pub fn script_detach(&self, n: usize) {
+        let h = self.created.borrow().iter().filter(|c| matches!(c.data, NodeData::Element { .. })).nth(n).cloned();
+        if let Some(h) = h {
+            self.dom.remove_from_parent(&h);
+        }
+    }
     /// record a suspension point: everything connected to a traced handle
     pub fn pause(&self, kind: &str, traced: &[Handle]) {
         let mut seen: HashSet<usize> = HashSet::new();
@@ -263,6 +270,8 @@ impl TreeSink for Mon {
         self.dom.get_template_contents(target)
     }
     fn same_node(&self, x: &Handle, y: &Handle) -> bool {
+        self.use_(x, "same_node");
+        self.use_(y, "same_node");
         self.dom.same_node(x, y)
     }
     fn set_quirks_mode(&self, mode: QuirksMode) {
